@@ -254,7 +254,7 @@ def check_one(top, lvl, op, k, fails, tag):
             if n not in pre and n != new:
                 fail("extra-block", n)
         for n, b in pre_objs.items():
-            if n not in P and lvl.graph.get(n) is not b:
+            if n not in P and lvl.graph.get(n) is not b and lvl.graph.get(n) != b:
                 fail("other-block-replaced", n)
     elif prim == "control":
         if type(nb).__name__ != "SyntheticHead":
@@ -305,7 +305,7 @@ def check_one(top, lvl, op, k, fails, tag):
     elif prim == "join_returns":
         exits = [n for n in pre_keys if not [t for t in pre[n][1] if t not in pre[n][2]]]
         if len(exits) <= 1:
-            if list(lvl.graph) != pre_keys or any(lvl.graph[n] is not pre_objs[n] for n in pre_keys) or pre != post:
+            if sorted(lvl.graph) != sorted(pre_keys) or any(lvl.graph[n] != pre_objs[n] for n in pre_keys) or pre != post:
                 fail("not-a-no-op", exits)
         else:
             rerouted += 1
